@@ -7,7 +7,7 @@ Oracle = vlib.scp_harness.model(case): a reference walk of the handler behaviour
 documentation promises, the SET of acceptable statuses and the expected data set.  Its tables (FAMILIES / N_SPECIFIC)
 are transcribed from /repo/docs/service_classes/*.rst, docs/reference/status.rst and the doc_handle_* docstrings:
 
-  int -> itself; Dataset with Status -> that status, its optional status elements (ErrorComment, OffendingElement,
+  int (incl. int subclasses such as IntEnum members) -> itself; Dataset with Status -> that status, its optional status elements (ErrorComment, OffendingElement,
   ErrorID, AttributeIdentifierList) copied to THAT response; Dataset without Status -> 0xC001; other types -> 0xC002
   (C-ECHO: 0x0000, "always Success unless a valid status is returned"); handler exception -> 0xC211 (C-STORE),
   0xC311 (C-FIND), 0xC411 (C-GET), 0xC511 (C-MOVE), 0x0110 (DIMSE-N), 0x0000 (C-ECHO); data set that cannot be encoded
@@ -56,7 +56,7 @@ WORKERS = {"quick": 16, "thorough": 16}
 REQUIRE = {"requests": 400, "responses_compared": 450, "status_int_checked": 200, "status_ds_checked": 40,
            "extras_checked": 15, "nostatus_checked": 4, "badtype_checked": 8, "exception_checked": 20,
            "datasets_compared": 70, "unencodable_checked": 10, "count_dest_codes_checked": 20,
-           "ts_explicit": 50, "ts_implicit": 50, "ts_big": 15, "ts_deflated": 15}
+           "ts_explicit": 50, "ts_implicit": 50, "ts_big": 15, "ts_deflated": 15, "status_int_subclass_checked": 6}
 MAX_INCONCLUSIVE_FRAC = 0.03
 EXTRA_KEYS = {"ErrorComment": "ec", "OffendingElement": "oe", "ErrorID": "eid", "AttributeIdentifierList": "ail"}
 
@@ -155,6 +155,8 @@ def check_with(case, obs, quirks):
             break
         if cls.startswith("int"):
             c["status_int_checked"] = c.get("status_int_checked", 0) + 1
+            if i < len(_result_specs(case, quirks)) and (_result_specs(case, quirks)[i] or {}).get("t") == "intenum":
+                c["status_int_subclass_checked"] = c.get("status_int_subclass_checked", 0) + 1
         elif cls.startswith("ds-extras"):
             c["status_ds_checked"] = c.get("status_ds_checked", 0) + 1
         elif cls == "ds-without-status":
@@ -223,6 +225,14 @@ def check_with(case, obs, quirks):
         if len(msgs) > len(exp) and not mdl["open"]:
             c["surplus_responses_left_to_C20"] = len(msgs) - len(exp)
     return viol, c, nontrivial
+
+
+def _result_specs(case, quirks=None):
+    """Status specs of the handler results in response order (approximation used for a coverage counter only)."""
+    h = case["h"]
+    if h["kind"] == "ret":
+        return [h.get("s")]
+    return [st.get("s") for st in h.get("steps", []) if "s" in st]
 
 
 def _status_types(case):
